@@ -275,12 +275,21 @@ func (d *OrderedDaemon) Start() {
 func (d *OrderedDaemon) Run() {
 	d.Start()
 
-	// wait until all wait groups for all shutdown orders are finished
-	for _, wg := range d.waitGroupsForAllShutdownOrders() {
-		if wg == nil {
-			continue
+	for {
+		// wait until all wait groups for all shutdown orders are finished
+		for _, wg := range d.waitGroupsForAllShutdownOrders() {
+			if wg == nil {
+				continue
+			}
+			wg.Wait()
 		}
-		wg.Wait()
+
+		// workers that were added while we were waiting (under a new shutdown order, or under
+		// an order whose wait group we had already passed) are not covered by the loop above,
+		// so only return if nothing is running anymore.
+		if len(d.GetRunningBackgroundWorkers()) == 0 {
+			return
+		}
 	}
 }
 
